@@ -1112,7 +1112,7 @@ fn main() {
                 Arch::Mipsel => 0xC02_0002,
                 Arch::Ppc => 0xC02_0003,
             };
-            let mut rng = Rng::new(fv::seed_from_env() ^ salt);
+            let mut rng = Rng::new(fv::seed_from_env() ^ (salt << 24)); // salt in the high bits: streams of different architectures never coincide
             let n = fv::arg_u64("n", 100);
             for _ in 0..n {
                 let inst = if arch.is_mips() { gen_mips(&mut rng, arch) } else { gen_ppc(&mut rng) };
